@@ -309,7 +309,7 @@ def rule_defuse(ctx, cd):
         ok = suf in defined
         ctx.ob(R, sites[0][0], f"c: identifier suffix `<T>{suf}` used", ok, f"defined in {defined[suf][0][0]}" if ok else
                "no template defines an identifier with this suffix: generated code refers to something that does not exist", sites[0][1])
-    ctx.floor(R, n, 6)
+    ctx.floor(R, n, 5)
 
 
 def rule_refuse(ctx, cd):
